@@ -273,6 +273,7 @@ def ResOk (L : LSt) (t : Tid) : Res → Prop
   | .misuse => True
   | .touched _ => True
   | .broken _ => False
+  | .sized _ => True
 
 /-! ### stability of the other threads' invariants -/
 
@@ -446,5 +447,6 @@ theorem resok_stable {rule} {L : LSt} {t u : Tid} {a : Act} {r : Res}
   | misuse => trivial
   | touched _ => trivial
   | broken _ => exact h
+  | sized _ => trivial
 
 end TbbVerif.C12
